@@ -27,8 +27,7 @@
 (* shapes; operations that raised.                                                                                            *)
 EXTENDS X06_Sem, TraceLib
 
-Budget == 400000
-Base(e) == [vars |-> e.vars, enum |-> e.enum, N |-> e.N]
+Base(e) == [vars |-> e.vars, enum |-> e.enum, eidx |-> EIdx(e.enum), N |-> e.N]
 NoV == [fails |-> {}, nt |-> FALSE, dv |-> FALSE]
 NoVd == [fails |-> {}, nt |-> FALSE, dv |-> TRUE]
 F(c, name) == IF c THEN {name} ELSE {}
@@ -42,15 +41,17 @@ GoalVerdict(e) ==
   IF ~BaseOK(e) THEN NoV ELSE
   LET b0 == Base(e)
       P0 == ({e.r.param} \cup Rng(e.iv.vars) \cup Rng(e.hint.inst) \cup NamesIn(e.goal) \cup NamesIn(e.vgoal)) \ VarNames(b0)
-      terms == RuleTerms(e.r) \cup {e.iv.prop, e.hv.prop, e.goal, e.vgoal}
+      \* the scope: what the guard, the invariants, the goals and the assignments to variables of the invariant mention
+      terms == {e.r.guard, e.iv.prop, e.hv.prop, e.goal, e.vgoal}
+               \cup { e.r.asg[i][2] : i \in { j \in 1..Len(e.r.asg) : Target(e.r.asg[j]) \in NamesIn(e.iv.prop) } }
       sig == ScopeOf(b0, terms, P0)
       sup == /\ SupRule(e.r, sig) /\ SupInv(e.iv, sig) /\ SupInv(e.hv, sig) /\ HintOK(e.hint, e.hv)
              /\ e.r.param \notin Rng(e.iv.vars)
              /\ e.case \in 0..Len(e.iv.vars)
              /\ SupB(e.goal, sig, P0) /\ SupB(e.vgoal, sig, P0)
-             /\ MulSat(StateCount(sig), ParamCount(P0, sig.N)) <= Budget
+             /\ MulSat(StateCount(sig), ParamCount(P0, sig.N)) <= e.budget
   IN IF ~sup THEN NoV ELSE
-  LET Fs == GoalFacts(e.goal, e.vgoal, e.r, e.iv, e.case, e.hint, e.hv, sig)
+  LET Fs == GoalFacts(e.goal, e.vgoal, e.vgoal = Numbered(e.goal, sig), e.r, e.iv, e.case, e.hint, e.hv, sig)
       judgeSound == e.hint.k # "INV" \/ InstDistinct(e.hint, e.r, e.iv, e.case)
       ref == RefGoal(e.r, e.iv, e.case, e.hint, e.hv, sig)
   IN [fails |-> F(~MeaningOK(Fs), "SubgoalMeaning") \cup F(judgeSound /\ ~SoundOK(Fs), "SubgoalSound")
@@ -63,7 +64,7 @@ GoalVerdict(e) ==
 EncRule(e, i) ==
   LET b0 == Base(e)  r == e.rules[i]
       sig == ScopeOf(b0, RuleTerms(r), {r.param})
-      ok == SupRule(r, sig) /\ StateCount(sig) <= Budget
+      ok == SupRule(r, sig) /\ StateCount(sig) <= e.budget
       P == {r.param}
       envs == { Env(sig, st, v) : st \in States(sig), v \in [P -> 1..sig.N] }
       cells == UNION { IF sig.vars[j][2] \in {NatT, BoolT} THEN { <<"I", j - 1, 0>> } ELSE { <<"P", j - 1, p>> : p \in 1..sig.N }
@@ -84,7 +85,7 @@ EncRule(e, i) ==
 EncInvTerm(e, i) ==
   LET b0 == Base(e)  iv == e.invs[i]  P == Rng(iv.vars)
       sig == ScopeOf(b0, {iv.prop}, P)
-      ok == SupInv(iv, sig) /\ MulSat(StateCount(sig), ParamCount(P, sig.N)) <= Budget
+      ok == SupInv(iv, sig) /\ MulSat(StateCount(sig), ParamCount(P, sig.N)) <= e.budget
       t == e.conv.i[i]
       sup == ok /\ SupB(t, sig, P)
       bad == sup /\ \E st \in States(sig), v \in [P -> 1..sig.N] : EvalB(t, Env(sig, st, v)) # EvalB(iv.prop, Env(sig, st, v))
@@ -96,7 +97,7 @@ EncInvDef(e) ==
       P == IF shape THEN NamesIn(d[3]) \ (VarNames(b0) \cup {d[2][3][3][2]}) ELSE {}
       sig == ScopeOf(b0, { e.invs[i].prop : i \in 1..Len(e.invs) }, {})
       ok == /\ shape /\ \A i \in 1..Len(e.invs) : SupInv(e.invs[i], sig)
-            /\ MulSat(StateCount(sig), ParamCount(P, sig.N)) <= Budget
+            /\ MulSat(StateCount(sig), ParamCount(P, sig.N)) <= e.budget
       sup == ok /\ SupB(d[3], sig, P)
       bad == sup /\ \E st \in States(sig), v \in [P -> 1..sig.N] : EvalB(d[3], Env(sig, st, v)) # AllInvAt(e.invs, sig, st)
   IN [fails |-> F(bad, "InvEncoding"), nt |-> sup, dv |-> ~sup]
@@ -109,7 +110,7 @@ EncVerdict(e) ==
 FireVerdict(e) ==
   IF ~BaseOK(e) \/ e.outcome # "ok" THEN NoVd ELSE
   LET b0 == Base(e)  r == e.r
-      sig == [vars |-> b0.vars, enum |-> b0.enum, N |-> b0.N, sup |-> VarNames(b0), vals |-> {0}]
+      sig == [vars |-> b0.vars, enum |-> b0.enum, eidx |-> b0.eidx, N |-> b0.N, sup |-> VarNames(b0), vals |-> {0}]
       P == {r.param}
       stOK(s) == /\ DOMAIN s = VarNames(b0)
                  /\ \A j \in 1..Len(b0.vars) : IF b0.vars[j][2] \in {NatT, BoolT} THEN s[b0.vars[j][1]] \in 0..1000
@@ -130,6 +131,7 @@ FireVerdict(e) ==
 \* ------------------------------------------------------------------------------------------------ load
 SameSeqLen(a, b) == Len(a) = Len(b)
 LoadVerdict(e) ==
+  IF e.outcome = "unobservable" THEN NoVd ELSE
   IF e.outcome # "ok" THEN [fails |-> F(e.hassrc, "LoadFaithful"), nt |-> FALSE, dv |-> TRUE] ELSE
   IF ~BaseOK(e) THEN NoV ELSE
   LET b0 == Base(e)
@@ -148,12 +150,12 @@ LoadVerdict(e) ==
       identical == shapeSame /\ s.rules = e.rules /\ s.invs = e.invs
       ruleSame(i) == LET a == s.rules[i]  b == e.rules[i]
                          sig == ScopeOf(b0, RuleTerms(a) \cup RuleTerms(b), {a.param})
-                     IN /\ SupRule(a, sig) /\ SupRule(b, sig) /\ StateCount(sig) <= Budget
+                     IN /\ SupRule(a, sig) /\ SupRule(b, sig) /\ StateCount(sig) <= e.budget
                         /\ \A st \in States(sig), v \in [{a.param} -> 1..sig.N] :
                               LET en == Env(sig, st, v) IN EvalB(a.guard, en) = EvalB(b.guard, en) /\ Exec(a, en) = Exec(b, en)
       invSame(i) == LET a == s.invs[i]  b == e.invs[i]
                         sig == ScopeOf(b0, {a.prop, b.prop}, Rng(a.vars))
-                    IN /\ SupInv(a, sig) /\ SupInv(b, sig) /\ MulSat(StateCount(sig), ParamCount(Rng(a.vars), sig.N)) <= Budget
+                    IN /\ SupInv(a, sig) /\ SupInv(b, sig) /\ MulSat(StateCount(sig), ParamCount(Rng(a.vars), sig.N)) <= e.budget
                        /\ \A st \in States(sig), v \in [Rng(a.vars) -> 1..sig.N] : EvalB(a.prop, Env(sig, st, v)) = EvalB(b.prop, Env(sig, st, v))
       faithful == identical \/ (shapeSame /\ (\A i \in 1..Len(s.rules) : s.rules[i] = e.rules[i] \/ ruleSame(i))
                                           /\ (\A i \in 1..Len(s.invs) : s.invs[i] = e.invs[i] \/ invSame(i)))
